@@ -1,5 +1,6 @@
 (* C02 — the WIDER envelope of c02_closed_multi_version: several versions per
-   package name and several packages (of ONE name) per virtual, under a side
+   package name, several packages of ONE name per versioned virtual, several provider
+   NAMES per pure (unversioned) virtual, under a side
    condition that keeps the greedy, non-backtracking solver out of the recorded
    findings C02-F1 / F1b / F1c / F4 / F5 (and F2 / F3 / F6 as before).
 
@@ -47,9 +48,12 @@ Definition m_selfdep_b (R : resolver) : bool :=
 Definition m_virtual_b (R : resolver) : bool :=
   forallb (fun k => forallb (fun pv => negb (existsb (fun k' => String.eqb (k_name k') (s_name pv)) (r_pkgs R))) (k_provs k)) (r_pkgs R).
 
-(* M4 every key of the name map lists packages of ONE name x, the winner of x among them, and
-      under that key the winner beats every other package listed *)
-Definition m_entry_b (R : resolver) (e : string * list pid) : bool :=
+(* M4 every key of the name map lists
+      EITHER packages of ONE name x, the winner of x among them, and under that key the winner beats
+             every other package listed (both ways round)
+      OR     (a pure virtual with several provider names) winners only, each providing the key WITHOUT a
+             version — then disqualifyConflicts disqualifies none of them, whichever is chosen *)
+Definition m_entry_one_name_b (R : resolver) (e : string * list pid) : bool :=
   match snd e with
   | [] => true
   | x :: _ =>
@@ -59,6 +63,10 @@ Definition m_entry_b (R : resolver) (e : string * list pid) : bool :=
       | Some w => mem_pid w (snd e) && forallb (fun y => Nat.eqb y w || beats R (fst e) w y) (snd e)
       end
   end.
+Definition m_entry_pure_virtual_b (R : resolver) (e : string * list pid) : bool :=
+  forallb (is_winner R) (snd e) &&
+  forallb (fun y => forallb (fun pv => negb (String.eqb (s_name pv) (fst e)) || String.eqb (s_version pv) "") (k_provs (getp R y))) (snd e).
+Definition m_entry_b (R : resolver) (e : string * list pid) : bool := m_entry_one_name_b R e || m_entry_pure_virtual_b R e.
 Definition m_entries_b (R : resolver) : bool := forallb (m_entry_b R) (r_names R).
 
 (* M5 a constraint with a version operator names packages only (nothing provides that name) *)
@@ -109,7 +117,7 @@ Definition m_clauses (R : resolver) (W : list cdep) : list (string * bool) :=
   [ ("no-install-if", m_iif_b R);
     ("no-dependency-on-a-self-provided-name", m_selfdep_b R);
     ("a-provided-name-is-no-package-name", m_virtual_b R);
-    ("one-name-per-key-its-winner-listed-and-beating-the-rest", m_entries_b R);
+    ("per-key-one-name-with-its-winner-beating-the-rest-or-unversioned-winners-only", m_entries_b R);
     ("siblings-share-the-origin-and-are-not-pinned", m_siblings_b R);
     ("version-operators-only-on-package-names", forallb (on_positive (versioned_on_names_b R)) (all_deps R W));
     ("the-winner-passes-every-versioned-constraint-on-its-name", forallb (on_positive (winner_passes_b R)) (all_deps R W));
